@@ -130,6 +130,8 @@ class RefGraph(object):
         k = n.kind
         if k == "P":
             return n.value
+        if k == "E":
+            raise RefFail("TypeError")  # a placeholder that has not been filled in yet has no value
         if k == "F":
             args = [self.eval(c) for c in n.params]
             for c in n.deps:  # real graph refreshes dependency-only children too
@@ -159,6 +161,23 @@ class RefGraph(object):
                     self.events.add("fallback_after_failed_alternative")
             raise RefFail("RuntimeError")
         raise AssertionError(k)
+
+    def failure_types(self, nid):
+        """Exception types with which some node below (or at) nid fails on its own: when several inputs fail, which failure surfaces
+        first is a matter of evaluation order, which the statement does not fix."""
+        out = set()
+        seen = set()
+        stack = [nid]
+        while stack:
+            x = stack.pop()
+            if x in seen:
+                continue
+            seen.add(x)
+            r = self.safe_eval(x)
+            if r[0] == "exc":
+                out.add(r[1])
+            stack.extend(self.children(x))
+        return out
 
     def safe_eval(self, nid):
         """-> ('ok', value) | ('exc', type name)"""
